@@ -47,7 +47,8 @@ def main():
         for c in checks:
             t0 = time.time()
             rc, o = sh("cd /verif && ./check %s quick" % c, 3600)
-            lines = [l for l in o.split("\n") if l.startswith(("VIOLATION", "KNOWN-FINDING", "BROKEN"))]
+            lines = [l for l in o.split("\n") if l.startswith(("VIOLATION", "BROKEN"))]
+            lines += [l[:160] for l in o.split("\n") if l.startswith("KNOWN-FINDING")]
             out["checks"][c] = {"rc": rc, "lines": lines[:8], "wall": round(time.time() - t0, 1)}
             sh("mkdir -p /verif/build/seed_replays/%s && cp -r /verif/evidence/replay/%s_* /verif/build/seed_replays/%s/ 2>/dev/null" % (os.path.basename(sd), c, os.path.basename(sd)))
     finally:
